@@ -71,7 +71,10 @@ func ReadAllFile(f afero.Fs, p string) ([]byte, error) {
 }
 
 // WalkTree lists breadth-first from the root using only the afero API.
-func WalkTree(f afero.Fs, content bool) (Tree, error) {
+func WalkTree(f afero.Fs, content bool) (Tree, error) { return walkTree(f, content, true) }
+
+// walkTree: stfsLinks = LstatIfPossible succeeds only for symbolic links (STFS's convention); otherwise the mode bits decide.
+func walkTree(f afero.Fs, content bool, stfsLinks bool) (Tree, error) {
 	out := Tree{}
 	lst, _ := f.(afero.Lstater)
 	rdl, _ := f.(afero.LinkReader)
@@ -96,8 +99,8 @@ func WalkTree(f afero.Fs, content bool) (Tree, error) {
 			e := infoToEntry(i)
 			isLink := false
 			if lst != nil {
-				if _, ok, err := lst.LstatIfPossible(p); ok && err == nil {
-					isLink = true
+				if li, ok, err := lst.LstatIfPossible(p); ok && err == nil {
+					isLink = stfsLinks || li.Mode()&os.ModeSymlink != 0
 				}
 			}
 			if isLink {
